@@ -16,4 +16,5 @@ Extraction "model.ml"
   remap_text remap_typed depth
   deobfuscate format_sig
   has_line_info is_valid summarize
-  run_sink mapping_uuid layout_ok dom32 sizes_ok.
+  run_sink mapping_uuid layout_ok dom32 sizes_ok
+  lex_cmp parse_uint is_numeric binary_search leb128 leb_read stab_insert stab_bytes stab_empty.
